@@ -120,6 +120,15 @@ func productCases(tier string) []scen.Case {
 		otherVerb := map[string]string{"GET": "PUT", "POST": "DELETE", "PUT": "PATCH", "DELETE": "GET", "PATCH": "POST"}[verb]
 		twin := method("Twin"+id, otherVerb, sub(route), pfx)
 		c.Methods = []scen.Method{m, sib, twin}
+		// the same annotations written differently / the methods declared in another order: same API
+		switch n % 3 {
+		case 1:
+			for i := range c.Methods {
+				c.Methods[i].Style = 1
+			}
+		case 2:
+			c.Methods = []scen.Method{twin, sib, m}
+		}
 		cases = append(cases, scen.Case{ID: id, Unit: scen.Unit{Controllers: []scen.Controller{c}},
 			Features: map[string]string{"family": family, "prefix": prefix, "route": route, "verb": verb, "hidden": fmt.Sprint(hidden), "deprecated": fmt.Sprint(deprecated), "tag": tag},
 			Desc:     []scen.Controller{c}})
